@@ -4,6 +4,7 @@
    accepted only if it carries a (key, content, signature) triple that the verification equation
    accepts. Unforgeability of ECDSA/Ed25519 is the named residual assumption (not a theorem). *)
 Require Import Enr.Bytes Enr.Consts Enr.Rlp Enr.SortedMap Enr.Keccak Enr.Record.
+Require Import Enr.Text EnrProofs.Thm_Authentic.
 Require Import EnrProofs.Thm_Decode EnrProofs.Thm_Forgery.
 Open Scope N_scope.
 
@@ -72,3 +73,34 @@ Theorem alteration_accepted_only_as_forgery : forall (c : crypto) kt b1 b2 r1 r2
               (signed_payload r2 <> signed_payload r1 \/ sig r2 <> sig r1).
 Proof. exact Thm_Forgery.alteration_accepted_only_as_forgery. Qed.
 Print Assumptions alteration_accepted_only_as_forgery.
+
+(* ---- the text and JSON entry points: same guarantee ---- *)
+Theorem from_str_authentic : forall (c : crypto) kt s r, from_str c kt s = Ok r ->
+  exists pk, enr_to_public c kt (content r) = Ok pk /\ id r = Some v4 /\
+             verify_v4 c pk (signed_payload r) (sig r) = true /\ verify c kt r = Ok true.
+Proof. exact Thm_Authentic.from_str_authentic. Qed.
+Print Assumptions from_str_authentic.
+
+Theorem from_json_authentic : forall (c : crypto) kt s r, from_json c kt s = Some (Ok r) ->
+  exists pk, enr_to_public c kt (content r) = Ok pk /\ id r = Some v4 /\
+             verify_v4 c pk (signed_payload r) (sig r) = true /\ verify c kt r = Ok true.
+Proof. exact Thm_Authentic.from_json_authentic. Qed.
+Print Assumptions from_json_authentic.
+
+(* the signed message determines exactly the sequence number and the pairs the decoded record reports *)
+Theorem signed_message_binds : forall (c : crypto) kt b1 b2 r1 r2 rest1 rest2,
+  bytes_ok b1 -> bytes_ok b2 -> decode c kt b1 = Ok (r1, rest1) -> decode c kt b2 = Ok (r2, rest2) ->
+  signed_payload r1 = signed_payload r2 -> seq r1 = seq r2 /\ content r1 = content r2.
+Proof. exact Thm_Authentic.signed_message_binds. Qed.
+Print Assumptions signed_message_binds.
+
+(* "every alteration is rejected", relative to the one assumption it needs (unforgeability, as a hypothesis:
+   under the record's key nothing but the signed message with its signature verifies): any accepted input
+   carrying the same public key IS the original record, byte for byte *)
+Theorem only_the_original_is_accepted : forall (c : crypto) kt b1 r1 rest1 pk,
+  bytes_ok b1 -> decode c kt b1 = Ok (r1, rest1) -> enr_to_public c kt (content r1) = Ok pk ->
+  (forall m' s', verify_v4 c pk m' s' = true -> m' = signed_payload r1 /\ s' = sig r1) ->
+  forall b2 r2 rest2, bytes_ok b2 -> decode c kt b2 = Ok (r2, rest2) -> enr_to_public c kt (content r2) = Ok pk ->
+    r2 = r1 /\ b2 = encode r1 ++ rest2.
+Proof. exact Thm_Authentic.only_the_original_is_accepted. Qed.
+Print Assumptions only_the_original_is_accepted.
